@@ -532,6 +532,20 @@ def cache(prog, rep):
                   "(fit(A), empirical_cdf, fit(C), empirical_cdf returns the same numbers)")
 
 
+def _disjuncts(lits):
+    """the alternatives under which a statement runs, for one-literal conditions: `a or b` gives [a, b], `not (a and b)` gives [not a, not b]"""
+    out = []
+    for l_ in lits:
+        if l_[0] == "or":
+            out += list(l_[1])
+        elif l_[0] == "not" and l_[1][0] == "and":
+            for c_ in l_[1][1]:
+                out.append(c_[1] if c_[0] == "not" else ("not", c_))
+        else:
+            out.append(l_)
+    return out
+
+
 def cache_key(prog, rep):
     """The memo describes the WRAPPED model as it was when the sample was drawn.  TransformedModel.fit drops it (C16.cache), but the wrapped
     model is an object of its own and is fitted directly in the package's own examples (model.fit(data); t = TransformedModel(model, ...) -
@@ -553,7 +567,7 @@ def cache_key(prog, rep):
     why = "the sample property does not store self._sample"
     if memo_st is not None:
         lits = pcs.of(memo_st)
-        disj = [d_ for l_ in lits for d_ in (l_[1] if l_[0] == "or" else (l_,))]
+        disj = _disjuncts(lits)
         why = ("the kept sample is re-drawn only when it is missing: t.empirical_cdf(x); model.fit(new_data) on the wrapped model; t.empirical_cdf(x) still answers for the old "
                "parameters (0.80603 where cdf and a fresh sample give 0.686); keep what the sample was drawn for (e.g. repr(self.model)) and compare")
         for d_ in disj:
@@ -678,7 +692,7 @@ def montecarlo(prog, rep):
         if isinstance(st, ast.Assign) and isinstance(st.targets[0], ast.Attribute) and st.targets[0].attr == "_sample":
             v = bs_.term(st.value, st)
             lits_ = path_conditions(prog, sp, bs_).of(st)
-            disj = [d_ for l_ in lits_ for d_ in (l_[1] if l_[0] == "or" else (l_,))]
+            disj = _disjuncts(lits_)
             oks = v[0] == "call" and v[1] == ("attr", SELF, "draw_sample") and ("isnone", ("attr", SELF, "_sample")) in disj
     rep.check(oks, "C16.mc", f"{TM}.sample:own-sample", sp.where(), "the cached sample is drawn from the model itself", "the empirical cdf must be computed from samples of this model (self.draw_sample)")
     # Monte-Carlo conditional cdf / icdf
